@@ -237,7 +237,7 @@ impl Property for C14 {
         }
     }
     fn rule(&self) -> &'static str {
-        "generated directory layouts (three nested levels, each with none / rustfmt.toml / .rustfmt.toml / both, plus $HOME and $XDG_CONFIG_HOME/rustfmt) whose configuration files set random subsets of 18 options incl. the deprecated aliases, x CLI part (--config-path file or directory, --config k=v,.., --edition, --style-edition) x 1..3 input files from different levels in every order; the real binary's `--print-config current FILE` is compared with a reference model of the documented resolution (nearest file, dotted name first, home, user-config; --config-path wholesale; CLI over file; defaults of the effective style edition; aliases only when the successor is unset; explicit widths clamped to max_width, unset ones from use_small_heuristics) and every printed width is checked against max_width; further cases: the same (option, value) through a file, through --config and through the API gives identical formatted text; --print-config default/current written back as a configuration file prints the same text again; multi-file invocations format each input with its own configuration; non-trivial = at least two sources disagree on a probed option and the winner is not the default; distinct by case content"
+        "generated directory layouts (three nested levels, each with none / rustfmt.toml / .rustfmt.toml / both, plus $HOME and $XDG_CONFIG_HOME/rustfmt) whose configuration files set random subsets of 18 options incl. the deprecated aliases, x CLI part (--config-path file or directory, --config k=v,.., --edition, --style-edition) x 1..3 input files from different levels in every order; the real binary's `--print-config current FILE` is compared with a reference model of the documented resolution (nearest file, dotted name first, home, user-config; --config-path wholesale; CLI over file; defaults of the effective style edition; aliases only when the successor is unset; explicit widths clamped to max_width, unset ones from use_small_heuristics) and every printed width is checked against max_width; further cases: the same (option, value) through a file, through --config and through the API gives identical formatted text; --print-config default/current written back as a configuration file prints the same text again (per-file configurations inside one multi-file invocation are C15's subject); non-trivial = at least two sources disagree on a probed option and the winner is not the default; distinct by case content"
     }
     fn assumptions(&self) -> Vec<&'static str> {
         vec!["the default values per style edition are read from the library (Config::default_for_possible_style_edition); C09 guards them", "the same option is never supplied through a dedicated flag and --config in one invocation"]
